@@ -360,11 +360,64 @@ def section_covariance_masks():
                                  output=NAMES[s], order=k, err=float(np.abs(full(idx2, oth[s], (k,)) - ref[(s, k)]).max()))
 
 
+def _degenerate_level_rotations():
+    """C15 / C06 in implicit mode: a unitary change of basis INSIDE a degenerate explicit level transforms the explicit blocks covariantly, whatever the basis looks like
+    (symmetry-adapted vectors with components of equal modulus, localised vectors, generic rotations, complex phases), and agrees with the fully explicit computation."""
+    global cases
+    Hd = np.array([[1, 1, 1, 1], [1, 1, -1, -1], [1, -1, 1, -1], [1, -1, -1, 1]], dtype=float).T / 2      # columns a, b, c, d
+    n = 7
+    V = np.eye(n)
+    V[:4, :4] = Hd
+    E = np.array([0.0, 0.0, 2.0, 3.0, 4.0, 5.5, 7.0])
+    H0 = V @ np.diag(E) @ V.T
+    r = np.random.default_rng(3)
+    M = r.integers(-4, 5, size=(n, n)) / 8
+    H1 = (M + M.T) / 2
+    ham = [sparse.csr_array(H0), sparse.csr_array(H1)]
+    a, b = V[:, 0], V[:, 1]
+    ref = block_diagonalize([H0, H1], subspace_eigenvectors=[V[:, :2], V[:, 2:]])       # explicit computation in the basis (a, b)
+    N = 3
+    c45, s45 = np.cos(0.7), np.sin(0.7)
+    bases = {
+        "symmetry-adapted (a, b): components of equal modulus": np.eye(2),
+        "localised (a+b, a-b)/sqrt2": np.array([[1, 1], [1, -1]]) / np.sqrt(2),
+        "swapped (b, a)": np.array([[0, 1], [1, 0]], dtype=float),
+        "generic rotation": np.array([[c45, -s45], [s45, c45]]),
+        "complex phases": np.array([[1, 1j], [1j, 1]]) / np.sqrt(2),
+        "sign flip (a, -b)": np.diag([1.0, -1.0]),
+    }
+    for name, R in bases.items():
+        for solver in ("direct", "kpm"):
+            if solver == "kpm" and (name != "generic rotation" or os.environ.get("VERIF_TIER", "quick") != "thorough"):
+                continue
+            cases += 1
+            vA = np.stack([a, b], axis=1) @ R
+            try:
+                with warnings.catch_warnings():
+                    warnings.simplefilter("ignore")
+                    kw = {} if solver == "direct" else {"direct_solver": False, "solver_options": {"atol": 1e-10}}
+                    out = block_diagonalize(ham if not np.iscomplexobj(vA) else [h.astype(complex) for h in ham], subspace_eigenvectors=[vA], **kw)
+                    for s_ in (0,):
+                        for o in range((N if solver == "direct" else 2) + 1):
+                            got = out[s_][(0, 0, o)]
+                            got = np.zeros((2, 2)) if got is zero else np.asarray(got)
+                            want = ref[s_][(0, 0, o)]
+                            want = np.zeros((2, 2)) if want is zero else np.asarray(want)
+                            want = R.conj().T @ want @ R
+                            tol = 1e-8 if solver == "direct" else 1e-6
+                            if not close(got, want, tol):
+                                fail("covariance", "implicit mode: a change of basis inside a degenerate explicit level is not a covariant change of the result (or differs from the explicit computation)",
+                                     basis=name, solver=solver, output=NAMES[s_], order=o, err=float(np.abs(got - want).max()))
+            except Exception as ex:  # noqa: BLE001
+                fail("covariance", "implicit mode: a basis of a degenerate explicit level is refused", basis=name, solver=solver, error=repr(ex)[:200])
+
+
 def section_covariance_implicit():
     """C15 in implicit mode (direct solver): permuting the explicit eigenvectors permutes the explicit blocks; conjugation; shift; direct sum."""
     global cases
     rng = np.random.default_rng(77)
     N = 3
+    _degenerate_level_rotations()
 
     def dense_of(x, shape):
         if x is zero:
